@@ -906,3 +906,179 @@ Proof.
   split; [reflexivity|].
   vm_compute. intro HP. apply Permutation_nil in HP. discriminate.
 Qed.
+
+(* ------------------------------------------------------------------ map order over histories *)
+(* two answers that differ only in the order inside sets *)
+Inductive out_equiv : out -> out -> Prop :=
+| oe_dang : forall d1 d2, Permutation d1 d2 -> out_equiv (RDang d1) (RDang d2)
+| oe_preds : forall p1 p2, Permutation p1 p2 -> out_equiv (RPreds p1) (RPreds p2)
+| oe_same : forall o, out_equiv o o.
+
+Lemma nodup_b_NoDup l : nodup_b l = true -> NoDup l.
+Proof.
+  induction l as [|x r IH]; simpl; [constructor|].
+  intro H. apply andb_true_iff in H. destruct H as [H1 H2].
+  apply negb_true_iff, smem_false in H1. constructor; auto.
+Qed.
+
+Lemma valid_order_spec order succs :
+  valid_order order succs = true -> NoDup order /\ forall s, In s order <-> In s succs.
+Proof.
+  unfold valid_order. intro H. apply andb_true_iff in H. destruct H as [H H3].
+  apply andb_true_iff in H. destruct H as [H1 H2].
+  split; [apply nodup_b_NoDup, H1|].
+  rewrite forallb_forall in H2, H3. intro s. split; intro Hs.
+  - apply smem_In, H2, Hs.
+  - apply smem_In, H3, Hs.
+Qed.
+
+(* the traversal of IndexAll does not look at the graph it fills *)
+Lemma index_all_nodes_indep content sok fuel : forall work visited g1 g2,
+  (forall x, In x (g_nodes g1) <-> In x (g_nodes g2)) ->
+  let r1 := index_all content sok fuel work visited g1 in
+  let r2 := index_all content sok fuel work visited g2 in
+  (forall x, In x (g_nodes (fst (fst r1))) <-> In x (g_nodes (fst (fst r2)))) /\ snd r1 = snd r2.
+Proof.
+  induction fuel as [|f IH]; intros work visited g1 g2 H; simpl.
+  - split; auto.
+  - destruct work as [|d rest]; [split; auto|].
+    destruct (smem d visited); [apply IH; auto|].
+    destruct (sok d); [|apply IH; auto].
+    apply IH. intro x. rewrite !index_nodes, H. tauto.
+Qed.
+
+Section Orders.
+Variable ct : amap.
+Variable fuel : nat.
+
+Definition srel (s1 s2 : state) : Prop :=
+  s_sok s1 = s_sok s2 /\ Inv (ctab ct) (s_g s1) /\ Inv (ctab ct) (s_g s2) /\
+  forall x, In x (g_nodes (s_g s1)) <-> In x (g_nodes (s_g s2)).
+
+Lemma remove_with_Inv g n order : Inv (ctab ct) g -> Inv (ctab ct) (fst (remove_with g n order)).
+Proof.
+  intro HI. unfold remove_with. destruct (valid_order order (getd (g_succs g) n)) eqn:V.
+  - apply remove_ord_Inv; auto. apply (valid_order_spec _ _ V).
+  - apply remove_Inv; auto.
+Qed.
+
+Lemma remove_with_nodes g n order x :
+  In x (g_nodes (fst (remove_with g n order))) <-> x <> n /\ In x (g_nodes g).
+Proof.
+  unfold remove_with. destruct (valid_order order (getd (g_succs g) n)); apply remove_ord_nodes.
+Qed.
+
+Lemma remove_with_dang g n order :
+  Inv (ctab ct) g ->
+  NoDup (snd (remove_with g n order)) /\
+  forall d, In d (snd (remove_with g n order)) <->
+            (In n (g_nodes g) /\ In d (ctab ct n) /\ In d (g_nodes g) /\
+             forall p, In p (g_nodes g) -> In d (ctab ct p) -> p = n).
+Proof.
+  intro HI. unfold remove_with. destruct (valid_order order (getd (g_succs g) n)) eqn:V.
+  - destruct (valid_order_spec _ _ V) as [Hn Hm]. split.
+    + apply remove_ord_danglings_nodup; auto.
+    + apply remove_ord_danglings; auto.
+  - split.
+    + apply remove_ord_danglings_nodup. unfold getd.
+      destruct (aget (g_succs g) n) eqn:E; [apply (inv_succ_val (ctab ct) g HI n l E) | constructor].
+    + apply remove_ord_danglings; auto. tauto.
+Qed.
+
+Lemma step_ord_equiv s1 s2 o order :
+  srel s1 s2 ->
+  srel (fst (step_ord ct fuel s1 (o, order))) (fst (step ct fuel s2 o)) /\
+  out_equiv (snd (step_ord ct fuel s1 (o, order))) (snd (step ct fuel s2 o)).
+Proof.
+  intros (Hs & H1 & H2 & Hn). unfold step_ord. cbn [fst snd].
+  destruct o; unfold step.
+  - (* Index *)
+    rewrite Hs. unfold op_index. destruct (smem n (s_sok s2)); cbn [fst snd s_g s_sok].
+    + split; [|apply oe_same].
+      split; [reflexivity|]. split; [apply index_Inv; exact H1|]. split; [apply index_Inv; exact H2|].
+      intro x. cbn [s_g]. rewrite !index_nodes, Hn. tauto.
+    + split; [|apply oe_same]. split; [reflexivity|]. split; [exact H1|]. split; [exact H2 | exact Hn].
+  - (* Remove: any order against the model's own *)
+    pose proof (remove_with_Inv (s_g s1) n order H1) as I1.
+    pose proof (remove_with_dang (s_g s1) n order H1) as [D1 M1].
+    pose proof (remove_with_nodes (s_g s1) n order) as N1.
+    destruct (remove_with (s_g s1) n order) as [g1 d1]. cbn [fst snd] in *.
+    pose proof (remove_Inv (ctab ct) (s_g s2) n H2) as I2.
+    pose proof (remove_with_dang (s_g s2) n [] H2) as [D2 M2].
+    pose proof (remove_with_nodes (s_g s2) n []) as N2.
+    assert (remove_with (s_g s2) n [] = remove (s_g s2) n \/ True) as _ by auto.
+    assert (forall d, In d (snd (remove (s_g s2) n)) <->
+              (In n (g_nodes (s_g s2)) /\ In d (ctab ct n) /\ In d (g_nodes (s_g s2)) /\
+               forall p, In p (g_nodes (s_g s2)) -> In d (ctab ct p) -> p = n)) as M2'.
+    { intro d. apply remove_ord_danglings; auto. tauto. }
+    assert (NoDup (snd (remove (s_g s2) n))) as D2'.
+    { apply remove_ord_danglings_nodup. unfold getd.
+      destruct (aget (g_succs (s_g s2)) n) eqn:E; [apply (inv_succ_val (ctab ct) _ H2 n l E) | constructor]. }
+    assert (forall x, In x (g_nodes (fst (remove (s_g s2) n))) <-> x <> n /\ In x (g_nodes (s_g s2))) as N2'
+      by (intro x; apply remove_ord_nodes).
+    destruct (remove (s_g s2) n) as [g2 d2]. cbn [fst snd s_g s_sok] in *.
+    split.
+    + split; [exact Hs|]. split; [exact I1|]. split; [exact I2|]. intro x. rewrite N1, N2', Hn. tauto.
+    + apply oe_dang. apply NoDup_Permutation; auto.
+      intro d. rewrite M1, M2'. rewrite !Hn.
+      split; intros (A & B & C & D); repeat split; auto; intros p Hp; apply D; apply Hn; auto.
+  - (* IndexAll *)
+    rewrite Hs. unfold index_all_root.
+    pose proof (index_all_nodes_indep (ctab ct) (fun x => smem x (s_sok s2)) fuel [n] [] (s_g s1) (s_g s2) Hn) as [Hx Hok].
+    pose proof (index_all_Inv (ctab ct) (fun x => smem x (s_sok s2)) fuel [n] [] (s_g s1) H1) as J1.
+    pose proof (index_all_Inv (ctab ct) (fun x => smem x (s_sok s2)) fuel [n] [] (s_g s2) H2) as J2.
+    destruct (index_all (ctab ct) (fun x => smem x (s_sok s2)) fuel [n] [] (s_g s1)) as [[g1 v1] ok1].
+    destruct (index_all (ctab ct) (fun x => smem x (s_sok s2)) fuel [n] [] (s_g s2)) as [[g2 v2] ok2].
+    cbn [fst snd s_g s_sok] in *. subst ok2. split; [|apply oe_same].
+    split; [reflexivity|]. split; [exact J1|]. split; [exact J2 | exact Hx].
+  - (* Query *)
+    cbn [fst snd]. split; [split; [exact Hs|]; split; [exact H1|]; split; [exact H2 | exact Hn]|].
+    rewrite (predecessors_raw_some (ctab ct) (s_g s1) H1), (predecessors_raw_some (ctab ct) (s_g s2) H2).
+    apply oe_preds. apply Permutation_map. apply (same_nodes_same_preds (ctab ct)); auto.
+  - (* Exists *)
+    cbn [fst snd]. split; [split; [exact Hs|]; split; [exact H1|]; split; [exact H2 | exact Hn]|].
+    unfold exists_node.
+    assert (smem n (g_nodes (s_g s1)) = smem n (g_nodes (s_g s2))) as ->; [|apply oe_same].
+    destruct (smem n (g_nodes (s_g s2))) eqn:M.
+    + apply smem_In. apply Hn. apply smem_In. exact M.
+    + apply smem_false. intro H. apply Hn in H. apply smem_In in H. congruence.
+  - (* Sok *)
+    cbn [fst snd s_g s_sok]. rewrite Hs. split; [split; [reflexivity|]; split; [exact H1|]; split; [exact H2 | exact Hn] | apply oe_same].
+  - (* Reset *)
+    cbn [fst snd s_g s_sok]. split; [|apply oe_same].
+    split; [exact Hs|]. split; [apply Inv_empty|]. split; [apply Inv_empty|]. intro x. simpl. tauto.
+Qed.
+
+Lemma run_orders_equiv ops : forall s1 s2,
+  srel s1 s2 ->
+  srel (fst (run_orders ct fuel s1 ops)) (fst (run ct fuel s2 (map fst ops))) /\
+  Forall2 out_equiv (snd (run_orders ct fuel s1 ops)) (snd (run ct fuel s2 (map fst ops))).
+Proof.
+  induction ops as [|[o order] r IH]; intros s1 s2 HR; simpl.
+  - split; auto.
+  - destruct (step_ord_equiv s1 s2 o order HR) as [HR1 HO].
+    destruct (step_ord ct fuel s1 (o, order)) as [a1 x1].
+    destruct (step ct fuel s2 o) as [a2 x2]. cbn [fst snd] in *.
+    destruct (IH a1 a2 HR1) as [HR2 HF].
+    destruct (run_orders ct fuel a1 r) as [b1 xs1].
+    destruct (run ct fuel a2 (map fst r)) as [b2 xs2]. cbn [fst snd] in *.
+    split; auto.
+Qed.
+
+Lemma history_any_map_order ops :
+  let r1 := run_orders ct fuel init_state ops in
+  let r2 := run ct fuel init_state (map fst ops) in
+  Inv (ctab ct) (s_g (fst r1)) /\
+  (forall x, In x (g_nodes (s_g (fst r1))) <-> In x (g_nodes (s_g (fst r2)))) /\
+  (forall n, Permutation (predecessors (s_g (fst r1)) n) (predecessors (s_g (fst r2)) n)) /\
+  Forall2 out_equiv (snd r1) (snd r2).
+Proof.
+  intros r1 r2.
+  assert (srel init_state init_state) as H0.
+  { split; [reflexivity|]. split; [apply Inv_empty|]. split; [apply Inv_empty|]. intro x. tauto. }
+  destruct (run_orders_equiv ops init_state init_state H0) as [(Hs & I1 & I2 & Hn) HF].
+  fold r1 r2 in Hs, I1, I2, Hn, HF.
+  split; auto. split; auto. split; auto.
+  apply (same_nodes_same_preds (ctab ct)); auto.
+Qed.
+End Orders.
